@@ -497,6 +497,9 @@ func varyVars(r *rand.Rand, g *gen.G) map[string]string {
 		case "monetary":
 			parts := strings.SplitN(cur, " ", 2)
 			if len(parts) == 2 {
+				if r.IntN(3) == 0 {
+					parts[0] = gen.AssetPool[r.IntN(len(gen.AssetPool))] // another asset: other balances are needed
+				}
 				out[v.Name] = parts[0] + " " + fmt.Sprint(r.IntN(300))
 			}
 		case "string":
